@@ -58,12 +58,12 @@ def copy_repo(dst):
     subprocess.check_call(["rsync", "-a", "--exclude", "/target", "--exclude", "/.git", "/repo/", dst + "/"])
 
 
-def run_checks(env):
+def run_checks(env, tier="quick"):
     hits = {}
     for p in claimed:
-        out = subprocess.run(["./check", p], capture_output=True, text=True, env=env, cwd=SNAP)
+        out = subprocess.run(["./check", p, "--tier", tier], capture_output=True, text=True, env=env, cwd=SNAP)
         if out.returncode != 0:
-            hits[p] = [l.strip()[:240] for l in out.stdout.splitlines() if l.strip().startswith("violated")][:4] or [out.stderr[-200:]]
+            hits[p] = [l.strip()[:240] for l in out.stdout.splitlines() if l.strip().startswith("violated")][:12] or [out.stderr[-200:]]
     return hits
 
 
@@ -103,7 +103,9 @@ def worker(i):
                     res[s] = {"false_alarms": hits}
                     print("%-30s %s" % (s, "silent" if not hits else "FALSE ALARM: " + "; ".join("%s(%s)" % (k, (v[0] if v else "")[:120]) for k, v in hits.items())), flush=True)
                 continue
-            hits = run_checks(env)
+            mp = os.path.join(V, "seeded", s, "meta.json")
+            tier = json.load(open(mp)).get("tier", "quick") if os.path.exists(mp) else "quick"
+            hits = run_checks(env, tier)
             own = s.split("-")[0]
             with lock:
                 res[s] = {"caught_by": sorted(hits), "own_property_alarm": own in hits, "detail": hits}
